@@ -8,5 +8,12 @@ CONSTANTS
   N3 = 7
   A4 = {"a", ":", " ", "Z", ">", "~"}
   N4 = 7
+  Lower <- GenLower
+  Upper <- GenUpper
+  Digits <- GenDigits
+  AsciiBlank <- GenAsciiBlank
+  WS <- GenWS
+  BenchChars <- GenBenchChars
+  UnitChars <- GenUnitChars
 INVARIANTS OpAgrees Total Disjoint
 CHECK_DEADLOCK FALSE
